@@ -12,7 +12,7 @@ message number inherits nothing.
 from __future__ import annotations
 
 PROP = "C13"
-RULES = ("C13.", "C01.flush-mismatch", "C01.final-view", "C02.uid-assignment", "C02.copyuid", "C02.appenduid", "C04.final-flags", "C04.stale-cache",
+RULES = ("C13.", "C01.flush-mismatch", "C01.final-view", "C02.uid-assignment", "C02.copyuid", "C02.appenduid", "C04.final-flags", "C04.stale-cache", "C04.seen-unseen-complement",
          "C05.message-multiset", "C03.uid-content")
 
 
